@@ -32,12 +32,13 @@ NoFault == -1
 
 Targets == {"newdir",      \* new file in directories that do not exist yet
             "existing",    \* existing regular file holding another (longer) package
+            "resave",      \* the file this very document was saved to by its previous successful Save, untouched since
             "device",      \* character device that refuses every byte (/dev/full)
             "rodir",       \* directory without write permission
             "rofile",      \* existing file without write permission
             "parentfile",  \* a path component is a regular file
             "isdir"}       \* the path names a directory
-Regular(t)     == t \in {"newdir", "existing"}
+Regular(t)     == t \in {"newdir", "existing", "resave"}
 MkdirFails(t)  == t = "parentfile"
 CreateFails(t) == t \in {"rodir", "rofile", "isdir"}
 
@@ -54,7 +55,7 @@ N(c) == SumSeq(c.hdr) + SumSeq(c.dat) + c.dir
 
 \* ---- the target ------------------------------------------------------------
 InitFile(c) ==
-  CASE c.target \in {"existing", "rofile"} -> [kind |-> "old", len |-> N(c) + 1]
+  CASE c.target \in {"existing", "rofile", "resave"} -> [kind |-> "old", len |-> N(c) + 1]
     [] c.target = "device"                 -> [kind |-> "dev", len |-> 0]
     [] c.target = "isdir"                  -> [kind |-> "dir", len |-> 0]
     [] OTHER                               -> [kind |-> "absent", len |-> 0]
